@@ -442,6 +442,7 @@ pub(super) async fn run(spec: Spec, env: Arc<Env>) -> Out {
     };
     let plan = TkPlan { scripts: scripts.clone(), group_of, group_keys, group_members, idx_peer: Mutex::new(vec![None; total]) };
     let sc = Arc::new(Scn {
+        salt: 0,
         log: Mutex::new(Vec::new()),
         hgate: Gate::new(),
         cgate: Gate::new(),
